@@ -62,7 +62,7 @@ Fixpoint scan_line (raw : bool) (l : line) : list (N * bool) * lend :=
       else let (cs, e) := scan_line raw l' in ((c, false) :: cs, e)
   end.
 
-Fixpoint line_read (raw : bool) (i : list line) : list (N * bool) * bool * list line * N :=
+Fixpoint line_read_nl (raw : bool) (i : list line) : list (N * bool) * bool * list line * N :=
   match i with
   | [] => ([], false, [], 0%N)
   | l :: rest =>
@@ -70,10 +70,33 @@ Fixpoint line_read (raw : bool) (i : list line) : list (N * bool) * bool * list 
       | (cs, LNl) => (cs, true, rest, nlen l)
       | (cs, LEof) => (cs, false, rest, nlen l)
       | (cs, LCont) =>
-          let '(cs', found, r, n) := line_read raw rest in
+          let '(cs', found, r, n) := line_read_nl raw rest in
           (cs ++ cs', found, r, (nlen l + n)%N)
       end
   end.
+
+(* `read -d D` with D other than newline does not take whole lines: it takes
+   the bytes up to the first delimiter that is not escaped (every delimiter
+   with -r, or when the delimiter is the backslash itself). *)
+Fixpoint flat_read (raw : bool) (d : N) (esc : bool) (x : list N)
+  : list (N * bool) * bool * list N * N :=
+  match x with
+  | [] => ([], false, [], 0)
+  | b :: r =>
+      if esc then
+        let '(cs, f, rest, n) := flat_read raw d false r in
+        if N.eqb b NL then (cs, f, rest, 1 + n) else ((b, true) :: cs, f, rest, 1 + n)
+      else if N.eqb b d then ([], true, r, 1)
+      else if negb raw && N.eqb b BSL then
+        let '(cs, f, rest, n) := flat_read raw d true r in (cs, f, rest, 1 + n)
+      else
+        let '(cs, f, rest, n) := flat_read raw d false r in ((b, false) :: cs, f, rest, 1 + n)
+  end.
+
+Definition line_read (raw : bool) (d : N) (i : list line)
+  : list (N * bool) * bool * list line * N :=
+  if N.eqb d NL then line_read_nl raw i
+  else let '(cs, f, rest, n) := flat_read raw d false (concat i) in (cs, f, split_lines rest, n).
 
 Definition line_slurp (i : list line) : str * list line * N :=
   (concat i, [], nlen (concat i)).
@@ -92,9 +115,9 @@ Definition abs_src (s : source) : lsource :=
 Definition abs_dev (d : dev) : list line := split_lines (concat d).
 
 (* The reference semantics. *)
-Definition spec_run (parser : pstate -> list line -> pres) (fuel : nat)
+Definition spec_run (parser : list pstate -> list line -> pres) (fuel pf : nat)
     (src : lsource) (stdin : list line) : final :=
-  run line_ops parser fuel src stdin.
+  run line_ops parser fuel pf src stdin.
 
 (* ------------------------------------------------------------------ *)
 (* Declarative notions used in the theorem statements.                 *)
@@ -102,54 +125,88 @@ Definition spec_run (parser : pstate -> list line -> pres) (fuel : nat)
 (* what the parser can be given, in order: the lines, then the end of input *)
 Definition feedable (ls : list line) : list line := ls ++ [[]].
 
-(* the parser, in state [st], takes exactly the first [k] feedable lines *)
-Definition decides (parser : pstate -> list line -> pres) (st : pstate)
-    (ls : list line) (k : nat) (r : pres) : Prop :=
-  (1 <= k <= S (length ls))%nat /\
-  parser st (firstn k (feedable ls)) = r /\ r <> PNeedMore /\
-  forall j, (1 <= j < k)%nat -> parser st (firstn j (feedable ls)) = PNeedMore.
+(* The parser, called in the states [sts] with [fed0] already in the line
+   buffer, takes exactly the first [k] feedable lines ([k] >= [start]: 1 when
+   the buffer was flushed, 0 when text was pending in it): it decides on them
+   and asks for more on every shorter prefix. *)
+Definition decides (parser : list pstate -> list line -> pres) (sts : list pstate)
+    (fed0 : list line) (start : nat) (ls : list line) (k : nat) (r : pres) : Prop :=
+  (start <= k <= S (length ls))%nat /\
+  parser sts (fed0 ++ firstn k (feedable ls)) = r /\ r <> PNeedMore /\
+  forall j, (start <= j < k)%nat -> parser sts (fed0 ++ firstn j (feedable ls)) = PNeedMore.
 
 (* The property as a relation: a run is LINE BY LINE if it is a sequence of
    steps, each of which takes from the front of the input exactly the lines
    the parser needs for one command ([decides]; nothing once the end of input
    has been seen), then runs that command on what follows — and only then
-   goes on to the next command with the parser state the command left. *)
+   goes on to the next command, with the parser state the command left, also
+   when the next command comes out of text pending in the line buffer. *)
 Definition take_lines (k : nat) (x : xstate (I:=list line)) : xstate (I:=list line) :=
   mkX (x_sh x) (skipn k (x_in x)) (x_off x + nlen (concat (firstn k (x_in x)))) (x_evs x).
 
-Definition phase_takes (parser : pstate -> list line -> pres) (x : xstate (I:=list line))
-    (eof : bool) (k : nat) (r : pres) : Prop :=
-  if eof then k = 0%nat /\ parser (s_ps (x_sh x)) [[]] = r /\ r <> PNeedMore
-  else decides parser (s_ps (x_sh x)) (x_in x) k r.
+Definition step_sts (x : xstate (I:=list line)) (pend : bool) (hist : list pstate) : list pstate :=
+  (if pend then hist else []) ++ [s_ps (x_sh x)].
+
+Definition phase_takes (parser : list pstate -> list line -> pres) (x : xstate (I:=list line))
+    (eof pend : bool) (fed0 : list line) (hist : list pstate) (k : nat) (r : pres) : Prop :=
+  decides parser (step_sts x pend hist) (if pend then fed0 else []) (if pend then 0 else 1)%nat
+          (if eof then [] else x_in x) k r.
+
+Definition after_phase (x : xstate (I:=list line)) (eof : bool) (k : nat) : xstate (I:=list line) :=
+  if eof then x else take_lines k x.
+
+Definition fed_after (x : xstate (I:=list line)) (eof pend : bool) (fed0 : list line) (k : nat)
+  : list line :=
+  (if pend then fed0 else []) ++ firstn k (feedable (if eof then [] else x_in x)).
 
 Definition eof_after (x : xstate (I:=list line)) (eof : bool) (k : nat) : bool :=
   eof || Nat.eqb k (S (length (x_in x))).
 
-Inductive line_by_line (parser : pstate -> list line -> pres)
-  : xstate (I:=list line) -> bool -> final -> Prop :=
-| LBL_end x eof k :
-    phase_takes parser x eof k PEnd ->
-    line_by_line parser x eof (finish FEnd (x_status x) (take_lines k x))
-| LBL_syntax x eof k :
-    phase_takes parser x eof k PError ->
-    line_by_line parser x eof (finish FSyntax 2 (take_lines k x))
-| LBL_unknown x eof k :
-    phase_takes parser x eof k PUnknown ->
-    line_by_line parser x eof (finish FUnknown 0 (take_lines k x))
-| LBL_exit x eof k c x2 :
-    phase_takes parser x eof k (PComplete c) ->
-    exec line_ops c (take_lines k x) = (x2, true) ->
-    line_by_line parser x eof (finish FExit (x_status x2) x2)
-| LBL_step x eof k c x2 r :
-    phase_takes parser x eof k (PComplete c) ->
-    exec line_ops c (take_lines k x) = (x2, false) ->
-    line_by_line parser x2 (eof_after x eof k) r ->
-    line_by_line parser x eof r.
+Inductive line_by_line (parser : list pstate -> list line -> pres)
+  : xstate (I:=list line) -> bool -> bool -> list line -> list pstate -> final -> Prop :=
+| LBL_end x eof pend fed0 hist k :
+    phase_takes parser x eof pend fed0 hist k PEnd ->
+    line_by_line parser x eof pend fed0 hist
+      (finish FEnd (x_status x) (after_phase x eof k))
+| LBL_syntax x eof pend fed0 hist k :
+    phase_takes parser x eof pend fed0 hist k PError ->
+    line_by_line parser x eof pend fed0 hist (finish FSyntax 2 (after_phase x eof k))
+| LBL_unknown x eof pend fed0 hist k :
+    phase_takes parser x eof pend fed0 hist k PUnknown ->
+    line_by_line parser x eof pend fed0 hist (finish FUnknown 0 (after_phase x eof k))
+| LBL_exit x eof pend fed0 hist k c p x2 :
+    phase_takes parser x eof pend fed0 hist k (PComplete c p) ->
+    exec line_ops c (after_phase x eof k) = (x2, true) ->
+    line_by_line parser x eof pend fed0 hist (finish FExit (x_status x2) x2)
+| LBL_step x eof pend fed0 hist k c p x2 r :
+    phase_takes parser x eof pend fed0 hist k (PComplete c p) ->
+    exec line_ops c (after_phase x eof k) = (x2, false) ->
+    line_by_line parser x2 (eof_after x eof k) p
+      (if p then fed_after x eof pend fed0 k else [])
+      (if p then step_sts x pend hist else []) r ->
+    line_by_line parser x eof pend fed0 hist r.
+
+(* commands whose reads take whole lines (no `read -d`) *)
+Fixpoint nl_cmd (c : cmd) : bool :=
+  match c with
+  | CRead _ d _ => N.eqb d NL
+  | CSeq a b | CAnd a b | COr a b => nl_cmd a && nl_cmd b
+  | CNot a | CSub a => nl_cmd a
+  | CIf a b c => nl_cmd a && nl_cmd b && nl_cmd c
+  | _ => true
+  end.
+
+Definition reads_lines (parser : list pstate -> list line -> pres) : Prop :=
+  forall sts fed c p, parser sts fed = PComplete c p -> nl_cmd c = true.
+
+(* text can stay pending in the line buffer for fewer than K commands in a row *)
+Definition pend_depth (parser : list pstate -> list line -> pres) (K : nat) : Prop :=
+  forall sts fed c, parser sts fed = PComplete c true -> (length sts < K)%nat.
 
 (* At the end of input with nothing pending, `command_line` returns Ok(None)
    or an error; it never produces a command out of nothing. *)
-Definition ends_at_eof (parser : pstate -> list line -> pres) : Prop :=
-  forall st, match parser st [[]] with PComplete _ => False | _ => True end.
+Definition ends_at_eof (parser : list pstate -> list line -> pres) : Prop :=
+  forall st, match parser [st] [[]] with PComplete _ _ => False | _ => True end.
 
 (* bytes (lines for a command string) the script source can still deliver *)
 Definition src_bytes (s : source) (stdin : dev) : nat :=
